@@ -174,6 +174,14 @@ class Check(object):
 
     def handle_sat(self, ob):
         model = smt.parse_model(ob.result.get('output', ''))
+        if not model and ob.script and '(get-model)' not in ob.script:
+            # ask again for the satisfying assignment: replays start from the solver's counterexample
+            try:
+                r2 = smt.run_solver(ob.script + '(get-model)\n', min(ob.timeout or self.qtimeout, 60), workdir=self.scratch, tag=self.pid)
+                if r2['verdict'] == 'sat':
+                    model = smt.parse_model(r2.get('output', ''))
+            except Exception:
+                model = {}
         rep = None
         if ob.replay is not None:
             try:
